@@ -101,7 +101,7 @@ pub fn enc(s: &str) -> String {
     }
     let mut out = String::new();
     for &c in s.as_bytes() {
-        let plain = c > 0x20 && c < 0x7f && !b",/;=~|%-".contains(&c);
+        let plain = c > 0x20 && c < 0x7f && !b",/;=~|%-[]!>&".contains(&c);
         if plain {
             out.push(c as char);
         } else {
